@@ -429,7 +429,7 @@ fn gen_upd(rng: &mut Rng, focus: &[Pfx], safi_of: &HashMap<Pfx, Safi>) -> Upd {
         if rng.chance(1, 12) && !ann.is_empty() { wd.push(ann[0]); }           // announce + withdraw of one NLRI in one UPDATE
         if rng.chance(1, 20) { ann.clear(); wd.clear(); }                       // no NLRI at all: the IPv4 End-of-RIB marker
         let mut u = Upd { attr: rng.range(1, 9) as u32, ann, wd, mp4: rng.chance(1, 4), corrupt: 0 };
-        if rng.chance(1, 12) { let k = rng.range(1, 5) as u8; if corrupt_applicable(&u, k) { u.corrupt = k; } }
+        if rng.chance(1, 12) { let k = rng.range(1, 6) as u8; if corrupt_applicable(&u, k) { u.corrupt = k; } }
         if encode_update(&u).is_ok() { return u; }
     }
 }
